@@ -81,17 +81,19 @@ func (s *vmMissStorage) Radius() *uint256.Int             { return uint256.NewIn
 func (s *vmMissStorage) Close() error                     { return nil }
 
 // The node does not hold the content: the reply lists only table records, never the asker's, in
-// non-decreasing log-distance to the content id, and fits one packet for every ENR size vector.
+// non-decreasing log-distance to the content id, and fits one packet (record sizes 1 or 580 bytes
+// here; every vector of sizes is the subject of C08.enrs_size_budget).
 //
 //verif:harness C08.content_enrs unwind=40 timeout=60
 //verif:use offerenv tablenodes logdist
-//verif:param K=3/5
+//verif:param K=3/4
 func vhC08ContentEnrs() {
 	p := vhOfferProto(1, protocolVersions{1}, nil)
 	p.storage = &vmMissStorage{}
 	k := vsChoose("table-nodes", vsParam("K")+1)
 	key := vsBytesN("key", 32)
 	vhTableNodes = nil
+	vhEnrSizes = []int{1, 580} // small / cut-forcing records; every size vector is C08.enrs_size_budget
 	for i := 0; i < k; i++ {
 		n := vhAddTableNodeWithID(vhNearID(key))
 		for _, m := range vhTableNodes[:i] {
